@@ -124,11 +124,34 @@ fn parse_template_args_req(input: &[LexToken]) -> ParseResult<'_, Vec<Expression
     Ok((input, type_args))
 }
 
+thread_local! {
+    /// Places in the token stream where template arguments were looked for without finding any
+    ///
+    /// An operand is parsed again for each way the tokens in front of it can be read so the same place is tried many times
+    /// Trying again gives the same result - and costs twice the time for every < in front of it
+    static NO_TEMPLATE_ARGS_AT: std::cell::RefCell<std::collections::HashSet<usize>> =
+        std::cell::RefCell::new(std::collections::HashSet::new());
+}
+
+/// Forget the results of earlier template argument parsing - the token stream they belonged to is gone
+pub fn reset_template_args_memory() {
+    NO_TEMPLATE_ARGS_AT.with(|set| set.borrow_mut().clear());
+}
+
 /// Parse a list of template arguments or no arguments
 pub fn parse_template_args(input: &[LexToken]) -> ParseResult<'_, Vec<ExpressionOrType>> {
+    // Tokens are identified by their address which is stable for the duration of one parse
+    let place = input.as_ptr() as usize;
+    if NO_TEMPLATE_ARGS_AT.with(|set| set.borrow().contains(&place)) {
+        return Ok((input, Vec::new()));
+    }
+
     match parse_template_args_req(input) {
         Ok(ok) => Ok(ok),
-        Err(_) => Ok((input, Vec::new())),
+        Err(_) => {
+            NO_TEMPLATE_ARGS_AT.with(|set| set.borrow_mut().insert(place));
+            Ok((input, Vec::new()))
+        }
     }
 }
 
